@@ -76,6 +76,7 @@ def one(m, skip_tests):
     finally:
         sh(["git", "-C", "/repo", "worktree", "remove", "--force", wt])
         shutil.rmtree(wt, ignore_errors=True)
+        shutil.rmtree(wt.rstrip("/") + ".verif-out", ignore_errors=True)
     return res
 
 def main():
